@@ -124,6 +124,9 @@ class ObjGen:
         if self.dtors and r.random() < 0.6:
             show = own_int[0] if own_int else None
             cls["dtor"] = [Echo(Bin("+", S("~%s " % nm), Var(show)) if show else S("~%s" % nm))]
+            if r.random() < 0.5:
+                # several statements, one of them a call: destructors mostly run while a return or a scope exit is in progress
+                cls["dtor"] += [Decl(P("int"), "dz", Call("tag", S("~%s.t=" % nm), I(r.randint(1, 9)))), Echo(Bin("+", S("~%s done " % nm), Var("dz")))]
         self.make_methods(nm, base)
 
     def find_decl(self, nm, mname, ptypes):
